@@ -266,7 +266,20 @@ void oracle_c09_failover(World &w, const History &h)
     if (!t.q.ok || t.server < 0 || t.server >= 8) continue;
     bool is_user = user_q.count(t.q.id) > 0;
     int  best = 1 << 30;
-    for (int i = 0; i < nsrv; i++) best = std::min(best, t.ref_fail[i]);
+    // the configured list (and its order) at the moment the destination was decided: server-list edits in flight
+    // are followed by the reference (retained servers keep their health, removed ones are forgotten)
+    bool configured = false;
+    for (int i = 0; i < t.norder; i++) {
+      best = std::min(best, t.ref_fail[t.order[i]]);
+      if (t.order[i] == t.server) configured = true;
+    }
+    if (servers_changed && !t.batched) {
+      if (!configured) {
+        w.violate("C09:selection:server-not-in-current-list", fmt("tx#%d went to server %d which is not in the server list configured at that moment (%d servers)", t.id, t.server, t.norder));
+        continue;
+      }
+      w.W("c09_selection_after_list_edit");
+    }
     if (is_user) {
       // resends that stay on the same server by protocol: EDNS downgrade (FORMERR) and nothing else
       bool same_server_resend = false;
@@ -276,15 +289,15 @@ void oracle_c09_failover(World &w, const History &h)
         for (auto &p : w.packets)
           if (!p.forged && p.for_tx == pv.id && p.t_read >= 0 && (p.kind == RK_FORMERR_NOOPT || p.kind == RK_FORMERR_OPT)) same_server_resend = true;
       }
-      if (!servers_changed && !same_server_resend && !t.batched) {
+      if (!same_server_resend && !t.batched) {
         if (t.ref_fail[t.server] != best)
           w.violate("C09:selection:not-a-best-server",
                     fmt("tx#%d of query id %u went to server %d with %d consecutive failures while a server with %d exists (failures by server: %d,%d,%d)", t.id, t.q.id,
                         t.server, t.ref_fail[t.server], best, t.ref_fail[0], t.ref_fail[1], t.ref_fail[2]));
         else if (!w.cfg->rotate) {
           int first_best = -1;
-          for (int i = 0; i < nsrv && first_best < 0; i++)
-            if (t.ref_fail[i] == best) first_best = i;
+          for (int i = 0; i < t.norder && first_best < 0; i++)
+            if (t.ref_fail[t.order[i]] == best) first_best = t.order[i];
           if (t.server != first_best)
             w.violate("C09:selection:not-first-in-configuration-order", fmt("tx#%d went to server %d but server %d is the first with the fewest failures (%d) and rotation is off", t.id, t.server, first_best, best));
         } else
@@ -331,6 +344,15 @@ void oracle_c09_failover(World &w, const History &h)
         if (u.q.ok && user_q.count(u.q.id) && !u.q.q.empty() && !t.q.q.empty() && vdns::lower(vdns::name_text(u.q.q[0].labels)) == vdns::lower(vdns::name_text(t.q.q[0].labels)) && u.q.q[0].qtype == t.q.q[0].qtype)
           same_question = true;
       if (!same_question) w.violate("C09:probe:different-question", fmt("probe tx#%d asks a question no user query asked", t.id));
+      // the copy is invisible to the application: whatever answers it reaches no callback, and sending it neither
+      // completes nor fails a request within the same library call chain
+      for (auto &p : w.packets) {
+        if (p.forged || p.for_tx != t.id) continue;
+        for (auto &tk : w.toks)
+          if (tk.count && (std::find(tk.markers.begin(), tk.markers.end(), p.serial) != tk.markers.end() || tk.neg_marker == p.serial))
+            w.violate("C09:probe:answer-delivered-to-application", fmt("packet #%d answers probe tx#%d but its data reached the callback of request token %d", p.serial, t.id, tk.id));
+        if (p.seq_read >= 0) w.W("c09_probe_answer_read");
+      }
     }
   }
   // ---- the same selection rule judged from what the NETWORK saw (not from the library's own callbacks): every
@@ -959,7 +981,7 @@ void oracle_c17_cookie(World &w, const History &h)
     }
     if (p.kind == RK_BADCOOKIE || p.kind == RK_BADCOOKIE_BARE) {
       if (delivered) w.violate("C17:accept:badcookie-delivered", fmt("BADCOOKIE packet #%d was delivered to a callback", p.serial));
-      if (p.kind == RK_BADCOOKIE) {
+      if (p.kind == RK_BADCOOKIE && ptx.seq >= A[s].reset_seq) { // same rule as for a valid answer: a reply to a transmission from before the last reset teaches nothing
         A[s].proven      = true;
         first_missing[s] = -1;
       }
